@@ -315,12 +315,25 @@ fn run_dim<const D: usize>(rep: &Report, cn: &Counters, thorough: bool, bounds: 
         let a = alpha::cube_alphabet::<D>();
         fam.push(("cube alphabet subsets".to_string(), sets_of(&a, D + 1..=D + if thorough { 4 } else { 3 }), if thorough { devs.clone() } else { dflt.clone() }, false));
     }
+    if D >= 3 && !thorough {
+        // guarantee x ordering product (retry / dedup / simplex at their defaults) on every 5th set of the degenerate
+        // alphabet: the finalisation steps of batch construction differ per guarantee and the cells they see differ per
+        // insertion order (the thorough tier covers every pair of deviations on every set)
+        let a: Vec<[f64; D]> = if D == 3 { let mut g = alpha::grid::<D>(2); g.push([0.5; D]); g } else { alpha::cube_alphabet::<D>() };
+        let mut cfgs = Vec::new();
+        for g in guarantees() {
+            for o in orders() {
+                cfgs.push(Cfg { guarantee: g, order: o, ..Cfg::default_cfg() });
+            }
+        }
+        fam.push((if D == 3 { "cube3+centre subsets".to_string() } else { "cube alphabet subsets".to_string() }, sets_of(&a, D + 2..=D + 3).into_iter().step_by(5).collect(), cfgs, false));
+    }
     // general-position family (moment curve): all subsets of D+1..D+3 of 2D+4 points
     let mp = alpha::moment_points::<D>(if D <= 3 { 8 } else { D + 4 });
     fam.push(("moment curve".into(), sets_of(&mp, D + 1..=(D + 3).min(mp.len())), devs.clone(), true));
 
     for (name, sets, cfgs, gp) in &fam {
-        bounds.insert(format!("D{D} {name}"), json!({"point_sets": sets.len(), "configs": cfgs.len(), "kernels": 2}));
+        bounds.insert(format!("D{D} {name} ({} configs)", cfgs.len()), json!({"point_sets": sets.len(), "configs": cfgs.len(), "kernels": 2}));
         sets.par_iter().for_each(|pts| {
             for cfg in cfgs {
                 both_kernels::<D>(rep, cn, name, pts, cfg, *gp, true);
